@@ -92,9 +92,11 @@ let run_membership (toks : string list) : string =
     let addrs = List.sort_uniq compare (List.map (fun (_, a) -> int_of_n a) live) in
     let s = "[" ^ String.concat "," (List.map (Printf.sprintf "%x") addrs) ^ "]" in
     "recv=" ^ s ^ " polled=" ^ s
-  | "dist" :: self :: snaps ->
+  | ("dist" | "distf0" | "distf1") :: self :: snaps ->
     (* the consumer applies every published change in order (left, then joined): the batch goes to
-       the addresses of the live map it then holds *)
+       the addresses of the live map it then holds.  distf<v>: an earlier batch to one live peer
+       failed; the live map is a function of the membership changes alone, so the prediction is
+       the same *)
     let self = n self in
     let _, live =
       List.fold_left
